@@ -125,4 +125,13 @@ REG = {
   note="Trusted: TLC, decimal.Big.Decompose and math.Frexp for exact projections, math/big for the remainder witness (verified by TLC).",
   technique="TLA+ exact decimal arithmetic model-checked with TLC; grid replay + TLC trace validation of recorded random arithmetic",
   design="DESIGN.md section 4/C04"),
+ "C19": dict(
+  text="FCalendar is integer arithmetic on the proleptic Gregorian calendar (days-from-civil and its inverse, carry of out-of-range "
+       "months and days, weekday, local fields from instant + offset); TLC checks CalendarSane and computes every case of the "
+       "UTC family for replay; under four process-local zones with and without daylight saving the real builtins are recorded "
+       "and Trace_Time validates every event (local midnight, civil fields, Unix milliseconds on digit sequences, instant "
+       "preservation, shifts, layouts, now/toDay in the wall-clock bracket).",
+  note="Trusted: TLC, Go's zone database for offsets (zone rules are inputs, not specified).",
+  technique="TLA+ calendar specification model-checked with TLC; exhaustive replay (UTC) + TLC trace validation under several zones",
+  design="DESIGN.md section 4/C19"),
 }
